@@ -1,6 +1,7 @@
 package walfault
 
 import (
+	"bytes"
 	"encoding/json"
 	"fmt"
 	"os"
@@ -91,7 +92,7 @@ func Parent(o *common.Opts) int {
 	}
 	plan := tierPlan(o)
 	var results []*Result
-	var harnessErrs []string
+	harnessErrs := []string{}
 	for i := range plan {
 		p := &plan[i]
 		p.Work = filepath.Join(o.Work, fmt.Sprintf("batch-%d", i))
@@ -115,7 +116,9 @@ func Parent(o *common.Opts) int {
 			continue
 		}
 		var r Result
-		if err := json.Unmarshal(rb, &r); err != nil {
+		dec := json.NewDecoder(bytes.NewReader(rb))
+		dec.UseNumber() // keep 63-bit seeds inside samples exact
+		if err := dec.Decode(&r); err != nil {
 			harnessErrs = append(harnessErrs, err.Error())
 			continue
 		}
@@ -128,7 +131,7 @@ func Parent(o *common.Opts) int {
 	classes := map[string]*ClassStat{}
 	var seqs []SeqSummary
 	var samples []interface{}
-	var notes []string
+	notes := []string{}
 	for _, r := range results {
 		for k, v := range r.Counters {
 			counters[k] += v
@@ -179,7 +182,7 @@ func Parent(o *common.Opts) int {
 		rf    *ReplayFile
 	}
 	var pending []pendingViol
-	var violClasses []string
+	violClasses := []string{}
 	for _, k := range names {
 		c := classes[k]
 		v := c.Example
@@ -235,20 +238,18 @@ func Parent(o *common.Opts) int {
 	}
 
 	// ---- floors ----
-	var floors []string
+	floors := []string{}
 	floor := func(ok bool, msg string) {
 		if !ok {
 			floors = append(floors, msg)
 		}
 	}
-	q := !o.Thorough()
 	floor(counters["sequences"] > 0 && counters["sequences_without_cut"] == 0, "a sequence without a segment cut")
 	floor(counters["pairs_exhaustive"] >= 1, "no exhaustive pair")
 	floor(counters["crash_lost_sector_repaired"] >= 100, "fewer than 100 lost-sector crash states that needed Repair")
 	floor(counters["wal_corruptions"] >= 1000, "fewer than 1000 corruptions inside written regions")
 	floor(counters["snapshot_mutilations"] >= 100, "fewer than 100 snapshot mutilations")
 	floor(counters["ops_save-entries-only"] >= counters["sequences"], "sequences do not end with an entries-only save")
-	_ = q
 
 	cov := map[string]interface{}{
 		"evaluations":         counters["evaluations"],
